@@ -503,7 +503,26 @@ def c19(stream, scen):
     return wit
 
 
-MONITORS.update({'C09': [c09], 'C10': [c10], 'C12': [c12], 'C18': [c18], 'C19': [c19]})
+def c20_init(stream, scen=None):
+    """family sysi (one system; every `counts` comes after its first simulate): every registered asset
+    has been initialised exactly once -- also the assets constructed while the others were being
+    initialised, and the ones constructed later."""
+    if not scen or not any(l[:3] == ['S', 'asset', 'maker'] for l in scen):
+        return []
+    if any(l.startswith('sres err') for l in stream):
+        return []          # outside the family's shape
+    wit = []
+    for l in stream:
+        if l.startswith('scount'):
+            body = l[6:].strip()
+            counts = [int(x) for x in body.split(';')] if body not in ('', '-') else []
+            bad = [i for i, c in enumerate(counts) if c != 1]
+            if bad:
+                wit.append(f'after simulate: assets {bad} were initialised {[counts[i] for i in bad]} times (all counts: {counts})')
+    return wit
+
+
+MONITORS.update({'C09': [c09], 'C10': [c10], 'C12': [c12], 'C18': [c18], 'C19': [c19], 'C20': [c20_init]})
 
 
 # ------------------------------------------------------------------------------- floor monitors
@@ -937,6 +956,14 @@ def c15(stream, scen=None):
             nrec = sum(1 for r in f.recs if r.startswith(f'device_failure {x} '))
             if nrec != 1:
                 wit.append(f'frame {i} (t={f.now}): machine {x} failed (its shutdown callbacks were told so) but {nrec} device_failure records were written')
+        # ... and through the executed failure events themselves (a failure that hits a machine which is
+        # already down and holds no part tells no callback, but it is a failure occurrence all the same)
+        if f.trigger[0] == 'ev' and f.trigger[1]['status'] == 'ran' and f.trigger[1]['act'] % 16 == 4:
+            x = f.trigger[1]['act'] // 16
+            if x in devs and devs[x].kind == 'processor' and str(x) not in failed_cb:
+                nrec = sum(1 for r in f.recs if r.startswith(f'device_failure {x} '))
+                if nrec != 1:
+                    wit.append(f'frame {i} (t={f.now}): the failure event of machine {x} was executed but {nrec} device_failure records were written')
         for x, d in devs.items():
             if d.kind == 'buffer' and x in last_level and last_level[x] != int(d.f['lvl']):
                 wit.append(f'frame {i}: last level record of buffer {x} is {last_level[x]}, level is {d.f["lvl"]}')
@@ -949,6 +976,9 @@ def c15(stream, scen=None):
             for r, (u, c) in pools_of(f.state).items():
                 if r in last_res and last_res[r] != (u, c):
                     wit.append(f'frame {i}: last resource_update of {r} is {last_res[r]}, pool is {(u, c)}')
+                if r not in last_res:
+                    # once the manager is initialised every pool has a record (C15W.last_resource_reachable)
+                    wit.append(f'frame {i}: pool {r} = {(u, c)} exists but no resource_update was ever recorded for it')
         known.update(parts_now)
         if len(wit) > 5:
             break
